@@ -24,8 +24,8 @@ PID = "C11"
 META = {
     "category": "proof",
     "technique": "Lean 4 proof that a faithful model of the equal? worklist (two stacks, pair-keyed visited set, pointer short cuts, one arm per kind, nested == for keys) computes equality of the unfoldings on every acyclic value graph with arbitrary sharing; hash/equality coherence and finite-map/set/sequence laws as theorems; model tied to /repo by a translator (configuration table) and by running the real code on generated value graphs (DAGs with shared nodes in every position) and collection operation sequences",
-    "level_text": "Theorem eq_structural (SteelVerif/C11/Props.lean): for every acyclic value graph - leaves of every modelled kind, lists, pairs, immutable and mutable vectors, structs, boxes, hash maps and hash sets with arbitrary nesting and arbitrary sharing - the model of RecursiveEqualityHandler (as configured by the code that exists: GenSound.code_cfg_sound) returns exactly equality of the unfoldings; corollaries eq_refl, keys_interchangeable; hash_respects_eq (equal unfoldings hash alike); laws of hash-insert/ref/remove/contains/length, hashset, list/vector/string/bytevector indexing incl. boundary indices => error for all inputs. The legacy algorithm (visited keyed by single identities) is kept as Cfg.legacy with not_eq_structural_old / not_hash_respects_eq_old by decide. The model is tied to crates/steel-core/src/rvals/cycles.rs and rvals.rs on every run by translate/c11_cfg.py and by evaluating the real equal?/==/Hash/hash-contains? on the same graphs.",
-    "level_note": "Trusted: Lean kernel (propext, Classical.choice, Quot.sound only), the translator's regexes, harness/driver/comparison. Documented semantics outside the statement: a NaN is not equal? to itself (guard NoNaN), 1 and 1.0 differ. Not modelled: accidental 64-bit hash collisions, cyclic values built by mutation (C18), value kinds other than the ones of Model.Leaf/Node (closures, ports, streams, complex numbers: compared by corpus cases only), im/imbl collections themselves (represented by finite maps/sets).",
+    "level_text": "Theorem eq_structural (SteelVerif/C11/Props.lean): for every acyclic value graph - leaves of every modelled kind, lists, pairs, immutable and mutable vectors, structs, boxes, hash maps and hash sets with arbitrary nesting and arbitrary sharing - the model of RecursiveEqualityHandler (as configured by the code that exists: GenSound.code_cfg_sound) returns exactly equality of the unfoldings; corollaries eq_refl, keys_interchangeable, eq_symm/eq_trans (values without hash maps/sets); hash_respects_eq (equal unfoldings hash alike, incl. order-independent map/set hashing and the two vector kinds); laws of hash-insert/ref/remove/contains/length, hashset, list/vector/string/bytevector indexing incl. boundary indices => error for all inputs. The legacy algorithm (visited keyed by single identities) is kept as Cfg.legacy with not_eq_structural_old / not_hash_respects_eq_old by decide. The model is tied to crates/steel-core/src/rvals/cycles.rs and rvals.rs on every run by translate/c11_cfg.py and by evaluating the real equal?/==/Hash/hash-contains? on the same graphs.",
+    "level_note": "Trusted: Lean kernel (propext, Classical.choice, Quot.sound only), the translator's regexes, harness/driver/comparison. Documented semantics outside the statement: a NaN is not equal? to itself (guard NoNaN), 1 and 1.0 differ. Not proved: symmetry/transitivity of equal? through hash maps and hash sets (tested only: both query orders). Not modelled: accidental 64-bit hash collisions, cyclic values built by mutation (C18), value kinds other than the ones of Model.Leaf/Node (closures, ports, streams, complex numbers: compared by corpus cases only), im/imbl collections themselves (represented by finite maps/sets).",
 }
 
 HARNESS = "c11"
@@ -756,6 +756,9 @@ def run_coll(ctx, rng, nseq, length, stats):
     # `take` cutting exactly at a node boundary of the unrolled list (K11h, fixed in 85136c18), then every reader
     seqs.insert(0, ["cl new 1 2 3 4 5 6 7 8 9", "cl take 5", "cl last", "cl first", "cl len", "cl ref 4", "cl reverse", "cl last",
                     "cl new 4 7 0 3 7", "cl take 1", "cl last", "cl append 9", "cl last", "cl new 4 7 0 3 7", "cl take 1", "cl rest", "cl len"])
+    # ... and `reverse` after such a `take` (K11i, fixed in ba9eae93)
+    seqs.insert(0, ["cl new 1 2 3 4 5 6 7 8 9", "cl take 5", "cl reverse", "cl first", "cl rest", "cl first", "cl len", "cl last",
+                    "cl new 7 8 2 2 4 7 8 1", "cl take 4", "cl reverse", "cl rest", "cl cons 3", "cl ref 1", "cl reverse", "cl first"])
     seqs.insert(0, ["cv new", "cv ref 0", "cv set 0 1", "cv len", "cv push 5", "cv set 0 7", "cv set 1 7", "cv ref 1", "cv ref -1"])
     seqs.insert(0, ["cb new", "cb ref 0", "cb set 0 1", "cb new 1 2", "cb set 2 1", "cb set 1 255", "cb set 1 256", "cb set 1 -1",
                     "cb new 1 2 256", "cb new 0 255", "cb ref 2", "cb append", "cb append 3"])
